@@ -179,6 +179,11 @@ func propC01(c *Ctx) {
 	ui, _ := m.beginIndex(upd.Call.Args[1])
 	c.Check("R1.4", "Converge/insert-and-update-share-tx", ins.Pos(), ii >= 0 && ii == ui, fmt.Sprintf("insert on transaction #%d, update on #%d", ii+1, ui+1))
 
+	c.Rule("R1.6", "shared cached blocks: a log is dropped only as a duplicate; the cache serves only the requested range; the logs request spans the range and probes its last block", 8)
+	checkLogsAddDedup(c, "R1.6")
+	checkCacheKeyIdentity(c, "R1.6")
+	checkLogsProbe(c, "R1.6")
+
 	// ---- R1.5 ---------------------------------------------------------
 	c.Rule("R1.5", "load partitions [start, start+limit) by the ceiling quotient of batch size by concurrency; each partition starts at start + i*part and the scheduled closure fetches exactly (m, n)", 4)
 	propC01Partition(c, m)
